@@ -82,6 +82,7 @@ func (g *gen) leaf(keyOnly bool) *ast {
 	return a
 }
 
+var displayShapes = []string{"none", "name", "desc", "icon", "all"}
 var unitSets = []string{"bytes", "time", "custom"}
 var typedItemKinds = map[string]bool{"int": true, "float": true, "string": true, "bool": true}
 
@@ -179,6 +180,9 @@ func (g *gen) prop(name string, t *ast) prop {
 		p.HasDefault = true
 	}
 	p.Disabled = g.r.Intn(6) == 0
+	if g.r.Intn(3) == 0 {
+		p.Display = displayShapes[1+g.r.Intn(4)]
+	}
 	return p
 }
 
@@ -404,6 +408,9 @@ func wf(a *ast, table []*ast) bool {
 		seen := map[string]bool{}
 		for _, p := range a.Props {
 			if seen[p.Name] || !wf(p.Type, table) || (p.HasDefault && !defaultKinds[p.Type.Kind]) {
+				return false
+			}
+			if !has(displayShapes, p.display()) {
 				return false
 			}
 			for _, l := range [][]string{p.Conflicts, p.RequiredIf, p.RequiredIfNot} {
@@ -665,7 +672,17 @@ func (g *gen) mutate(s site) string {
 		}
 		return ""
 	case "object":
-		switch g.r.Intn(11) {
+		switch g.r.Intn(12) {
+		case 11:
+			if len(a.Props) > 0 {
+				i := g.r.Intn(len(a.Props))
+				old := a.Props[i].display()
+				for a.Props[i].display() == old {
+					a.Props[i].Display = displayShapes[g.r.Intn(5)]
+				}
+				return "property display"
+			}
+			return ""
 		case 10:
 			if len(a.Props) >= 2 {
 				perm := g.r.Perm(len(a.Props))
